@@ -212,6 +212,11 @@ func selectParent(nodeSet NodeSet) Result {
 	result := make([]store.Cursor, 0)
 
 	for _, i := range nodeSet {
+		if i.Pos() == 0 {
+			// The root node has no parent.
+			continue
+		}
+
 		result = append(result, i.Parent())
 	}
 
